@@ -1,4 +1,6 @@
 import Mathlib.Tactic.NormNum.Basic
+import Mathlib.Tactic.FinCases
+import Mathlib.Data.Fin.VecNotation
 import Mathlib.Algebra.Order.Field.Rat
 import TapkeeVerif.Model.LocallyLinear
 import TapkeeVerif.Proofs.LocallyLinear
@@ -87,6 +89,91 @@ theorem lle_system_eq (κ : Mat N N K) (i : Fin N) (nb : Fin k → Fin N) (tshif
   split_ifs <;> simp
 
 example : (0 : Fin 2) ≤ 1 := by decide
+
+/-! ## 2. `tangent_weight_matrix` (KLTSA / LLTSA) -/
+
+/-- The assembled alignment matrix is `Σ_i S_i (I − P_i) S_iᵀ + shift·I` with `S_i` the selection matrix of the
+    neighbour list of sample `i` — for ALL neighbour lists (duplicates allowed) and all local bases `U`. -/
+theorem ltsa_M_eq (nb : Fin N → Fin k → Fin N) (rsk : K) (U : Fin N → Mat k d K) (shift : K) :
+    Mat.toM (ltsaM nb rsk U shift)
+      = (∑ i, S (nb i) * (1 - Mat.toM (ltsaProj rsk (U i))) * (S (nb i))ᵀ)
+        + shift • (1 : Matrix (Fin N) (Fin N) K) :=
+  ltsaM_toM nb rsk U shift
+
+/-- the accumulating (`+=`) form the driver runs is the same matrix -/
+theorem ltsaMD_get (nb : Fin N → Fin k → Fin N) (rsk : K) (U : Fin N → Mat k d K) (shift : K) :
+    (ltsaMD nb rsk U shift).get = ltsaM nb rsk U shift :=
+  fromTripletsD_get _
+
+/-- `G Gᵀ` with `G = [1/√k | U]`, entry-wise -/
+theorem ltsa_proj_eq (rsk : K) (U : Mat k d K) (a b : Fin k) :
+    ltsaProj rsk U a b = rsk * rsk + ∑ c, U a c * U b c :=
+  ltsaProj_apply rsk U a b
+
+/-- If `rsk² · k = 1` and every column of every local basis sums to zero, the constant vector is in the null
+    space of `M − shift·I`, i.e. it is an eigenvector of `M` with eigenvalue `shift`. -/
+theorem ltsa_const_null (nb : Fin N → Fin k → Fin N) (rsk : K) (U : Fin N → Mat k d K) (shift : K)
+    (h1 : rsk * rsk * (k : K) = 1) (hU : ∀ i c, ∑ a, U i a c = 0) :
+    (Mat.toM (ltsaM nb rsk U shift) - shift • (1 : Matrix (Fin N) (Fin N) K)).mulVec (fun _ => 1) = 0 :=
+  ltsa_null_of_local nb rsk U shift (fun _ => 1) fun s => ltsa_local_const rsk (U s) h1 (hU s)
+
+/-- non-vacuity over ℚ: `k = 4`, `d = 1`, `rsk = 1/2`, `U = (1/2, −1/2, 1/2, −1/2)ᵀ` -/
+example : ((1 / 2 : ℚ) * (1 / 2) * ((4 : Nat) : ℚ) = 1) ∧
+    ∀ (_ : Fin 5) (c : Fin 1), ∑ a : Fin 4, (fun (a : Fin 4) (_ : Fin 1) => (![1 / 2, -1 / 2, 1 / 2, -1 / 2] a : ℚ)) a c = 0 := by
+  refine ⟨by norm_num, fun _ _ => ?_⟩
+  simp [Fin.sum_univ_succ]
+  norm_num
+
+/-- `utils/matrix.hpp: centerMatrix` as written -/
+theorem centerMatrix_eq (A : Mat k k K) (i j : Fin k) :
+    centerMatrix A i j
+      = A i j + (∑ i', ∑ j', A i' j') / ((k * k : Nat) : K) - (∑ i', A i' j) / (k : K) - (∑ i', A i' i) / (k : K) :=
+  centerMatrix_apply A i j
+
+/-- for a symmetric input the rows of the centred matrix sum to zero (so eigenvectors of a non-zero eigenvalue
+    have zero sum: the hypothesis `hU` of `ltsa_const_null`) -/
+theorem centerMatrix_rows_sum_zero (A : Mat k k K) (hA : ∀ i j, A i j = A j i) (hk : (k : K) ≠ 0) (i : Fin k) :
+    ∑ j, centerMatrix A i j = 0 :=
+  centerMatrix_row_sum A hA hk i
+
+example : (∀ i j : Fin 2, (fun (i j : Fin 2) => ((i.1 + j.1 : Nat) : ℚ)) i j = (fun (i j : Fin 2) => ((i.1 + j.1 : Nat) : ℚ)) j i)
+    ∧ ((2 : Nat) : ℚ) ≠ 0 := by
+  refine ⟨fun i j => ?_, by norm_num⟩
+  simp [Nat.add_comm]
+
+/- FULL STATEMENT (flat manifold, LTSA recovers the intrinsic coordinates): if the data are an affine image of
+   intrinsic coordinates `T : Fin N → Fin d → K` and `U i` are the top-`d` eigenvectors of the centred local Gram
+   matrix (contract `IsTopEig`, local rank exactly `d`), then the null space of `M − shift·I` is EXACTLY
+   `span{1, T·₁, …, T·_d}`.
+   Proved here (`_partial`): the inclusion `⊇` for each coordinate function, with the consequence of the
+   eigen-contract taken as hypothesis `hflat` (each coordinate function restricted to a neighbourhood lies in
+   `span{1, columns of U i}`) together with orthonormality of `G_i = [rsk | U i]`.  Not proved: that `IsTopEig` on a
+   rank-`d` neighbourhood implies `hflat`, and the reverse inclusion (needs connectivity / genericity of `nb`). -/
+theorem ltsa_affine_on_flat_partial (nb : Fin N → Fin k → Fin N) (rsk : K) (U : Fin N → Mat k d K) (shift : K)
+    (T t0 : Fin N → Fin d → K) (C : Fin N → Fin d → Fin d → K)
+    (hflat : ∀ i a c, T (nb i a) c = t0 i c + ∑ c', U i a c' * C i c' c)
+    (horth : ∀ i, (Mat.toM (ltsaG rsk (U i)))ᵀ * Mat.toM (ltsaG rsk (U i)) = 1)
+    (c : Fin d) :
+    (Mat.toM (ltsaM nb rsk U shift) - shift • (1 : Matrix (Fin N) (Fin N) K)).mulVec (fun j => T j c) = 0 := by
+  refine ltsa_null_of_local nb rsk U shift _ fun s => ?_
+  simp only [hflat]
+  exact ltsa_local_affine rsk (U s) (horth s) (t0 s c) (fun c' => C s c' c)
+
+/-- non-vacuity over ℚ: four points on a line, every point sees all four, `T j = 3·u_j + 7` -/
+example :
+    let u : Fin 4 → ℚ := ![1 / 2, -1 / 2, 1 / 2, -1 / 2]
+    let nb : Fin 4 → Fin 4 → Fin 4 := fun _ a => a
+    let U : Fin 4 → Mat 4 1 ℚ := fun _ a _ => u a
+    let T : Fin 4 → Fin 1 → ℚ := fun j _ => 3 * u j + 7
+    (∀ i a c, T (nb i a) c = (fun _ _ => (7 : ℚ)) i c + ∑ c', U i a c' * (fun _ _ _ => (3 : ℚ)) i c' c)
+    ∧ (∀ i, (Mat.toM (ltsaG (1 / 2 : ℚ) (U i)))ᵀ * Mat.toM (ltsaG (1 / 2 : ℚ) (U i)) = 1) := by
+  intro u nb U T
+  refine ⟨fun i a c => ?_, fun i => ?_⟩
+  · simp only [T, U, nb, Finset.univ_unique, Finset.sum_singleton]
+    ring
+  · ext p q
+    fin_cases p <;> fin_cases q <;>
+      simp [Matrix.mul_apply, Fin.sum_univ_succ, ltsaG, U, u] <;> norm_num
 
 /-! ## 3. `hessian_weight_matrix` (HLLE): column bookkeeping -/
 
